@@ -1017,7 +1017,13 @@ impl<'a> G<'a> {
         // the other kind of quote); a non-ASCII character may be written as an escape
         let has_sq = value.contains('\'');
         let has_dq = value.contains('"');
-        let lit = if has_dq {
+        let lit = if value.contains('\\') {
+            // a backslash must be written as an escape
+            match self.r.below(2) {
+                0 => format!("\"{}\"", value.replace('\\', "\\\\")),
+                _ => format!("'{}'", value.replace('\\', "\\x5c")),
+            }
+        } else if has_dq {
             // (a bare `"` inside a single-quoted literal does not evaluate in this front end: that
             // is a matter of literal evaluation, property C10, and is not generated)
             match self.r.below(2) {
@@ -1037,7 +1043,7 @@ impl<'a> G<'a> {
                 3 => format!("\"{}\"", value.replace('.', "\\x2e")),
                 4 => format!("\"{}\"", value.replace('f', "\\x66")),
                 5 => format!("\"{}\"", value.replace('é', "\\xe9")),
-                6 => format!("'{}'", value.replace('é', "\\u{e9}")),
+                6 => format!("'{}'", value.replace('é', self.r.pick_str(&["\\u{e9}", "\\u{00e9}", "\\u{0000E9}"]))),
                 _ => format!("\"{}\"", value),
             }
         };
@@ -1299,6 +1305,7 @@ pub fn gen_pristine(r: &mut Rng, profile: Profile, root: &str, cycle: bool) -> G
             let base = match r.below(40) {
                 0 => format!("q'x{}.inc", i),
                 1 => format!("q\"x{}.inc", i),
+                2 => format!("b\\s{}.inc", i), // a backslash in the name
                 _ => base,
             };
             let name = if r.chance(1, 6) { format!("sub/{}", base) } else { base };
